@@ -116,6 +116,28 @@ class Prov:
         self.feeds = {}
         for f in self.methods.values():
             self._scan(f, final=True)
+        # a (queue, lock) pair handed to a helper of the class binds the helper's parameters
+        self.param_bindings: Dict[Tuple[str, str], Tuple[ast.AST, ast.Call]] = {}
+        for f in list(self.methods.values()):
+            for c in ast.walk(f):
+                if not (isinstance(c, ast.Call) and isinstance(c.func, ast.Attribute) and isinstance(c.func.value, ast.Name)
+                        and c.func.value.id == "self" and c.func.attr in self.methods and self.methods[c.func.attr] is not f):
+                    continue
+                h = self.methods[c.func.attr]
+                hp = [a.arg for a in h.args.args][1:]
+                passed: Dict[str, str] = {}  # caller name -> helper parameter
+                for i, a in enumerate(c.args):
+                    if isinstance(a, ast.Name) and i < len(hp):
+                        passed[a.id] = hp[i]
+                for kw_ in c.keywords:
+                    if kw_.arg and isinstance(kw_.value, ast.Name):
+                        passed[kw_.value.id] = kw_.arg
+                for bfn, qv, lv, _key, _src in list(self.bindings):
+                    if bfn is f and qv in passed and lv in passed:
+                        nb = (h, passed[qv], passed[lv], None, c)
+                        if not any(b[0] is h and b[1] == nb[1] and b[2] == nb[2] for b in self.bindings):
+                            self.bindings.append(nb)
+                        self.param_bindings[(h.name, passed[qv])] = (f, c)
 
     # -- kinds --------------------------------------------------------------------------------------
     def kind(self, e: Optional[ast.AST], fn: ast.AST) -> Tuple[Optional[str], Optional[str]]:
@@ -361,8 +383,17 @@ def run(repo: Repo, R: Report) -> None:
             if isinstance(st, (ast.Assign, ast.AnnAssign)):
                 tgt = st.targets[0] if isinstance(st, ast.Assign) else st.target
                 d = dotted_name(tgt)
-                if d == "self._queues":
-                    shared_map = "_queues"
+                # the attribute handed to the subscriptions (role), whatever it is called
+                handed = {dotted_name(c.args[0]) for m_ in tcls.body if isinstance(m_, FuncNode) for c in calls_in(m_)
+                          if call_attr(c) == SUBSCRIPTION and c.args}
+                for m_ in tcls.body:
+                    if isinstance(m_, FuncNode):
+                        for c in calls_in(m_):
+                            if call_attr(c) == SUBSCRIPTION and c.args and isinstance(c.args[0], ast.Name):
+                                from ..engine import assigned_value as _av
+                                handed |= {dotted_name(v) for v in _av(m_, c.args[0].id)}
+                if d and d.startswith("self.") and d in handed and shared_map is None:
+                    shared_map = d[5:]
     if shared_map is None:
         raise AnalysisError("shared channel map not found in InMemorySemantivaTransport.__init__")
     is_defaultdict = factory is not None
@@ -582,6 +613,10 @@ def run(repo: Repo, R: Report) -> None:
     for n in walk_no_nested(it):
         if isinstance(n, ast.Assign) and len(n.targets) == 1 and isinstance(n.targets[0], ast.Name):
             pops = [c for c in ast.walk(n.value) if isinstance(c, ast.Call) and isinstance(c.func, ast.Attribute) and c.func.attr in ("pop", "popleft") and isinstance(c.func.value, ast.Name) and c.func.value.id == qv]
+            if not pops and isinstance(n.value, ast.Call) and _pop_helper_call(prov[SUBSCRIPTION], n.value, qv):
+                # msg = self._take(q, lock): a helper whose every result is the message it popped from q (or None)
+                msg_vars.add(n.targets[0].id)
+                pop_stmts.append(n)
             if pops:
                 v = n.value
                 shape_ok = v is pops[0] or (isinstance(v, ast.IfExp) and v.body is pops[0] and isinstance(v.orelse, ast.Constant) and v.orelse.value is None)
@@ -714,6 +749,47 @@ def run(repo: Repo, R: Report) -> None:
                     live = [x for x in ast.walk(n.value) if sp.kind(x, mfn)[0] == K_MAP]
                     R.check(not live, r_scan, F, f"{SUBSCRIPTION}.{mfn.name}", norm(n),
                             f"the scan-progress marker self.{t.attr} is taken from a fresh read of the live channel map, not from the snapshot that was scanned: a channel created between the snapshot and this read counts as scanned without ever having been matched, and its messages are never delivered to this subscription", n.lineno)
+
+
+def _is_pop_of(v: ast.AST, q: str) -> bool:
+    def pop(c: ast.AST) -> bool:
+        return (isinstance(c, ast.Call) and isinstance(c.func, ast.Attribute) and c.func.attr in ("pop", "popleft")
+                and isinstance(c.func.value, ast.Name) and c.func.value.id == q and not c.args)
+    return pop(v) or (isinstance(v, ast.IfExp) and pop(v.body) and isinstance(v.orelse, ast.Constant) and v.orelse.value is None)
+
+
+def _pop_helper_call(sp: "Prov", call: ast.Call, qv: str) -> bool:
+    """``self.h(.., q, ..)`` where every value returned by ``h`` is the message popped from the parameter bound to q, or None."""
+    f = call.func
+    if not (isinstance(f, ast.Attribute) and isinstance(f.value, ast.Name) and f.value.id == "self" and f.attr in sp.methods):
+        return False
+    h = sp.methods[f.attr]
+    hp = [a.arg for a in h.args.args][1:]
+    pq = None
+    for i, a in enumerate(call.args):
+        if isinstance(a, ast.Name) and a.id == qv and i < len(hp):
+            pq = hp[i]
+    for k in call.keywords:
+        if isinstance(k.value, ast.Name) and k.value.id == qv:
+            pq = k.arg
+    if pq is None or any(isinstance(x, (ast.Yield, ast.YieldFrom)) for x in ast.walk(h)):
+        return False
+    rets = [r for r in ast.walk(h) if isinstance(r, ast.Return)]
+    n_pops = 0
+    for r in rets:
+        v = r.value
+        if v is None or (isinstance(v, ast.Constant) and v.value is None):
+            continue
+        if _is_pop_of(v, pq):
+            n_pops += 1
+            continue
+        if isinstance(v, ast.Name):
+            defs = _assigned(h, v.id)
+            if defs and all(_is_pop_of(d, pq) or (isinstance(d, ast.Constant) and d.value is None) for d in defs) and any(_is_pop_of(d, pq) for d in defs):
+                n_pops += 1
+                continue
+        return False
+    return n_pops > 0
 
 
 def _guarded_creation(sub: ast.Subscript, lock: str, is_map) -> bool:
